@@ -15,6 +15,7 @@ CONSTANTS
   SeiSet = {"never"}
   ReR = {1}
   ReM = {0}
+  Handshake = "none"
   RecordSched = FALSE
   Dev = {}
 VIEW view
